@@ -259,6 +259,24 @@ func (r *Reach) callback(a ssa.Value, site ssa.CallInstruction, push func(*ssa.F
 					return // produced by external code
 				}
 				unknown = true
+			case *ssa.TypeAssert:
+				scan(x.X, d+1)
+			case *ssa.UnOp:
+				// a load of a struct field: whatever the module stores into that field
+				if fa, ok := x.X.(*ssa.FieldAddr); ok && x.Op == token.MUL {
+					if _, f, _, ok := fieldOfAddr(fa); ok {
+						r.w.buildFieldIndex()
+						sts := r.w.fieldStoreIns[f]
+						if len(sts) == 0 {
+							unknown = true
+						}
+						for _, st := range sts {
+							scan(st.Val, d+1)
+						}
+						return
+					}
+				}
+				unknown = true
 			default:
 				unknown = true
 			}
